@@ -1,6 +1,6 @@
 """C10 Doors, keys and boxes respond only to a faced ACTUATE, and only as documented."""
 from gym_gridverse.action import Action
-from gym_gridverse.grid_object import Box, Color, Door, GridObject, Key, NoneGridObject
+from gym_gridverse.grid_object import Box, Color, Door, Floor, GridObject, Key, NoneGridObject
 
 from ..runner import Obligation
 from ..stubs import SIGMA_3C, SIGMA_FULL, lazy_state, pre_held, same_object
@@ -47,6 +47,20 @@ class Gem(GridObject, register=False):
 
     def __repr__(self):
         return f'Gem({self.color!s})'
+
+
+class SlidingDoor(Door, register=False):
+    """a user-defined kind of door (subclassing is the documented way to customise objects): it IS a Door"""
+
+
+class Crate(Box, register=False):
+    """a user-defined kind of box"""
+
+
+def with_subclasses(sigma):
+    keep = [e for e in sigma if e[0] in ('Floor', 'Wall', 'Key(YELLOW)', 'Key(RED)', 'Door(LOCKED,YELLOW)', 'Box(Floor)')]
+    return keep + [(f'SlidingDoor({st.name},YELLOW)', lambda st=st: SlidingDoor(st, Color.YELLOW)) for st in Door.Status] + [
+        ('Crate(Key(YELLOW))', lambda: Crate(Key(Color.YELLOW))), ('Crate(Floor)', lambda: Crate(Floor()))]
 
 
 def with_gems(sigma, colors):
@@ -165,5 +179,9 @@ def obligations(tier):
     custom = [Obligation(f'custom-holdable-{fname}-{H}x{W}', mk(fname, H, W, sigma, with_gems(sigma, gem_colors)),
                          dict(function=fname, H=H, W=W, held='the alphabet plus a user-defined holdable coloured object (Gem) of each colour'))
               for fname in ('actuate_door', 'chain[move,turn,actuate_door,pickndrop]') for (H, W) in [(1, 2), (2, 2)]]
+    sub = with_subclasses(sigma)
+    custom += [Obligation(f'user-defined-door-and-box-subclasses-{fname}-{H}x{W}', mk(fname, H, W, sub, [e for e in sub if e[0].startswith('Key')]),
+                          dict(function=fname, H=H, W=W, alphabet=[e[0] for e in sub]))
+               for fname in ('actuate_door', 'actuate_box', 'chain[move,turn,actuate_door,actuate_box,pickndrop]') for (H, W) in [(1, 2), (2, 2)]]
     return hist + custom + [Obligation(f'{fname}-{H}x{W}', mk(fname, H, W, sigma), dict(function=fname, H=H, W=W, alphabet=len(sigma)))
                    for fname in FUNCS for (H, W) in shp if H * W > 1]  # 1x1 has no front cell: nothing to assert
